@@ -14,7 +14,7 @@ CHECKS = {
         'every node, every argument form and both flags: the factory succeeds and get_parents/children/ancestors/descendants return, each node exactly once, '
         'exactly the is_a objects/subjects resp. the nodes reachable over >= 1 is_a edges up/down (clos_trans), and include_source adds the source exactly once '
         'and nothing else. The stack DFS and deque BFS are instances of one worklist theorem proved for any pop policy. Correspondence: all 542 acyclic edge sets '
-        'on 4 positions x 2 label pools + random shape families, 3 real factories, every node/query/flag.',
+        'on 4 positions x 2 label pools + random shape families (30% with edges listed again anywhere in the list), dense graphs with > 255 edges, 3 real factories, every node/query/flag; plus a scale probe (~70 000 edges) compared directly with the closure.',
         'Trusted: Coq kernel + vm_compute; numpy arrays, dict/bisect lookup, deque/list buffers, generator laziness modelled functionally; TermId nodes '
         'represented by (prefix,id) keys (C04). Hypothesis: owl:Thing is not itself an input term. The model contains the de-duplication of repeated edges '
         'introduced by the fix: commit 8229d06.',
@@ -36,7 +36,7 @@ CHECKS = {
         'identically; is_*_of(sub,obj) is true exactly when the traversal of obj contains sub, is_leaf exactly when there are no children, so parent/child and '
         'ancestor/descendant are converse; node_to_idx/idx_to_node are inverse bijections between nodes and 0..n-1, root_idx maps to the root; every *_idx '
         'query/predicate equals the node API through that bijection; str / TermId / Identified arguments give identical results. Correspondence: all ordered '
-        'pairs of nodes x 5 predicates x 3 factories x 3 argument forms and the full index API on every small graph.',
+        'pairs of nodes x 5 predicates x 3 factories x 5 argument forms (CURIE, TermId, a user-defined TermId subclass, identified objects carrying either) and the full index API on every small graph.',
         'Trusted: as C01. __contains__ is exercised with TermId operands (its declared signature); the index API exists on the indexed graph only.',
         '§4 C03'),
     'C14': (
@@ -45,7 +45,7 @@ CHECKS = {
         'is_*_of as object, gives False as subject, membership False, node_to_idx None; non-CURIE strings and non-node objects raise ValueError in every '
         'method; EVERY integer outside 0..n-1 (negative included, unbounded Z) raises ValueError in get_*_idx and idx_to_node; for is_*_of_idx an out-of-range '
         'walked index raises ValueError and an out-of-range other index never yields True. Correspondence: absent ids before/between/after/foreign prefix, '
-        'malformed values, integers {-n-2..-1, n..n+2, 10^6, 2^63} and numpy ints on every method of both graph classes.',
+        'look-alikes of present ids (other zero padding, sign, blanks, digit separators, full-width digits, other prefix case), malformed values, integers {-n-2..-1, n..n+2, 10^6, 2^63} and numpy ints on every method of both graph classes.',
         'Trusted: as C01; numpy integer indexing modelled by explicit range checks. Off-by-one row check and negative idx_to_node: genuine defect fixed in '
         '/repo (fix: 929e410). Reading of the two-index predicates fixed in DESIGN §4 C14.',
         '§4 C14'),
@@ -54,7 +54,7 @@ CHECKS = {
         'Machine-checked theorems (all strings, all term ids, no bound): parse succeeds iff a delimiter is present and splits at the '
         'first colon else first underscore; value re-parses to an equal id; == is equality of (prefix,id); equal ids hash equally '
         'across both classes; < is a strict total lexicographic order; sort+dedupe is canonical and the bisect loop finds exactly '
-        'the present ids. The model is tied to the code by differential execution on every run (exhaustive small alphabet + random unicode).',
+        'the present ids. The model is tied to the code by differential execution on every run (exhaustive small alphabet + random unicode + HPO-shaped ids against their look-alikes: zero padding, sign, blanks, digit separators, full-width digits, prefix case).',
         'Trusted: Coq kernel + vm_compute; hash((prefix,id)) abstracted as a function of the two strings; numpy.unique/bisect modelled; '
         'harness rendering. idx >= 0 for directly constructed ids; no lone surrogates.',
         '§4 C04'),
@@ -64,7 +64,7 @@ CHECKS = {
         'sorted CSR and denotes the last-write-wins dense matrix (builder_refines_dense); for any valid CSR triple (sorted or not) cell, row and '
         'value->columns reads equal the dense matrix, each column once; any coordinate outside the shape (negative included) raises. '
         'Correspondence: all assignment sequences of length <=3 (quick) / <=4 (thorough) on a 2x3 matrix, degenerate shapes, random histories '
-        'and hand-built CSR triples (incl. matrices with more than 255 stored cells), with every cell/row/value query and every coordinate of the whole wrap-around window read back from the real classes; plus a scale probe beyond the 16-bit boundary (~68 000 stored cells) compared directly with the dense matrix.',
+        'and hand-built CSR triples (incl. matrices with more than 255 stored cells), with every cell/row/value query and every coordinate of the whole wrap-around window read back from the real classes; matrices frozen from the builder in the middle of a history are read at once and again after the remaining assignments; plus a scale probe beyond the 16-bit boundary (~68 000 stored cells) compared directly with the dense matrix.',
         'Trusted: Coq kernel + vm_compute; numpy slicing / fancy assignment / masks and deque.insert modelled functionally; dtype values rendered '
         'as integers (exact). Error class is compared only as error-vs-value (the property does not fix it). NZ hypothesis = assignments of non-zero values, as the property states.',
         '§4 C17'),
@@ -77,7 +77,7 @@ CHECKS = {
         'full loader agree on id, name, alternate ids, obsolescence; permuting nodes and edges gives the same current terms and the same edge set (hence, '
         'by C02, the same graph). Version: examples for both encodings. Correspondence: generated documents (all node types, deprecated absent/true/false, '
         'every optional meta part, 12 synonymType spellings, odd PURLs, 5 kinds of ignorable edges, 3 version encodings) through both loaders, all '
-        'factories and the shared defaults, also shuffled - the whole flattened ontology is compared.',
+        'factories and the shared defaults, also shuffled - the whole flattened ontology is compared; plus a 150-term document with > 255 is_a edges through the default factories, the parents / children compared with the document directly.',
         'Trusted: Coq kernel + vm_compute; json.load; regexes modelled as ASCII string functions (paper argument for the greedy match, validated on odd ids); '
         'graph = C01/C02 model, container = C06 model. "deprecated": false made terms obsolete: genuine defect fixed in /repo (fix: a5a2d3d).',
         '§4 C05'),
@@ -88,7 +88,7 @@ CHECKS = {
         '(unconditional); with a disjoint id assignment a lookup of a primary or alternate id in any of the three argument forms returns exactly that current '
         'term and any other id None; `in` is true iff the lookup succeeds; term_ids lists exactly the primary and alternate ids of current terms, each once, '
         'and exactly these resolve; other argument kinds raise ValueError. Correspondence: random collections incl. obsolete terms with alternate ids, ids '
-        'shared between obsolete and current terms, clashing ids, both ontology kinds, all query forms, identity of the returned object.',
+        'shared between obsolete and current terms, clashing ids, look-alikes of known ids as absent ids, both ontology kinds, all query forms (incl. a user-defined TermId subclass), identity of the returned object.',
         'Trusted: Coq kernel + vm_compute; dict modelled as association list with in-place overwrite; object identity rendered as list position.',
         '§4 C06'),
     'C07': (
@@ -101,7 +101,7 @@ CHECKS = {
         'release is the greatest tag, no tag -> ValueError; clear(type) removes exactly that type, clear() everything; the file NAMES (<ID>/<id>.<release>.json, + .<random>.tmp) '
         'as strings: classification is a left inverse of both naming functions, so cache locations of different (type, release) never coincide and a temporary file is never a cache location. Correspondence: all histories of '
         'length <= 2 over 13 operations x {absolute, relative} store + random ones, a kill before every boundary, all 2-loader interleavings with <= 2 '
-        'preemptions (thorough: all 12870) with the store snapshot after every boundary, faulty / 3-loader races, repeated loads of one release with alternating loader options each compared with the direct load - the RAW directory listing is classified inside Coq and compared with the model at every '
+        'preemptions (thorough: all 12870) with the store snapshot after every boundary, faulty / 3-loader races, repeated loads of one release with alternating loader options each compared with the direct load, a tag re-published with other content after clear (evaluated directly) - the RAW directory listing is classified inside Coq and compared with the model at every '
         'checkpoint, resolve_store_path is compared with final_name. PARTIAL: power-loss durability and non-POSIX rename are outside the model.',
         'Trusted: Coq kernel + vm_compute; os.replace atomic, mkstemp random parts unique (that a temporary name is never a cache location is proved in Store/Paths.v); boundaries '
         'intercepted by harness-side replacement of module attributes; GitHub services not modelled. Two genuine defects fixed in /repo (fix: 344b425 atomic '
@@ -161,7 +161,7 @@ CHECKS = {
         'exactly what it yields alone, and one opened later is unaffected by what happened before. In the model isolation is structural, so the verdict rests '
         'on the property\'s own observable on the real code: results after query histories (incl. abandoned half-consumed iterators) equal fresh results; all '
         'interleavings (<= 60 per configuration, thorough <= 1680) of 2-3 open iterators yield the solo sequences, and their yields match the model in Coq '
-        '(no repeats, right multiset); 8 reader threads; documents / HPOA files A,B,A through the shared default factories; every ontology-level query (lookups of primary / alternate / obsolete / absent ids in three argument forms, membership, names, len, listings, version) on three fresh loads in fixed, reverse and shuffled order with open listing iterators. PARTIAL: preemption inside a '
+        '(no repeats, right multiset); 8 reader threads; documents / HPOA files A,B,A through the shared default factories; every ontology-level query (lookups of primary / alternate / obsolete / absent ids in three argument forms, membership, names, len, listings, version) on three fresh loads in fixed, reverse and shuffled order with open listing iterators; half-consumed traversals resumed after another query. PARTIAL: preemption inside a '
         'generator step and true parallelism are explored, not proved.',
         'Trusted: Coq kernel + vm_compute; generator semantics modelled as explicit states; footprint digest is diagnostic only.',
         '§4 C12'),
@@ -215,7 +215,7 @@ CHECKS = {
         'exactly when b is a strict ancestor of a; augmenting a single term equals the helper on it; augmenting ANY collection (empty, singleton, repeats, '
         'overlapping closures) gives the union of the closures, with the terms themselves only when asked; unknown nodes, malformed sources and non-graph '
         'arguments raise ValueError. Correspondence: all seven functions on enumerated + random DAGs, every node, all 2-subsets, random k-subsets, '
-        'list/tuple/set/frozenset, graph / GraphAware stub / MinimalOntology.',
+        'list/tuple/set/frozenset, graph / GraphAware stub / MinimalOntology, sources as CURIE / TermId / user-defined TermId subclass.',
         'Trusted: as C01; isinstance dispatch modelled by constructor tags chosen by the harness. augment_with_descendants(single term) returned ancestors: '
         'genuine defect fixed in /repo (fix: 1b293c0).',
         '§4 C18'),
